@@ -132,6 +132,9 @@ fn sweep_checks(ctx: &Ctx) {
                     Ok((ret, cur)) => {
                         let lg = log.lock().unwrap().get(&0).cloned().unwrap_or_default();
                         check_log(ctx, "f64", &init, &lg, steps, &cur, &case);
+                        if d == 3 && steps == 1 {
+                            ctx.sample_tagged("one sweep (recording conditional)", || json!({"input": case.clone(), "calls(index, given)": lg.iter().map(|(i, g, _)| json!([i, jfs(g)])).collect::<Vec<_>>(), "state_after": jfs(&cur)}));
+                        }
                         if bv(&ret) != bv(&cur) {
                             ctx.violation(Violation::new("C05:step-return", "step() returned something else than current_state()", case.clone()));
                         }
@@ -397,6 +400,7 @@ fn kernel_checks(ctx: &Ctx) {
                     return;
                 }
             }
+            ctx.sample_tagged("exact kernel of one sweep", || json!({"levels": levels, "d": d, "weights": w, "P(row 0)": p.iter().find(|r| r.iter().any(|x| *x > 0.0)).cloned()}));
             ctx.distinct(hash_f64s("kernel", w) ^ hash_of(&(levels, d)));
             ctx.outcome("kernels-invariant", 1);
         });
@@ -408,8 +412,6 @@ pub fn run(ctx: &Ctx) {
     sweep_checks(ctx);
     fault_points(ctx);
     kernel_checks(ctx);
-    ctx.sample(json!({"sweep": {"d": 3, "init": [0.0, 0.0, 0.0], "expected_calls": [[0, [0.0, 0.0, 0.0]], [1, ["v0", 0.0, 0.0]], [2, ["v0", "v1", 0.0]]]}}));
-    ctx.sample(json!({"kernel": {"space": "{0,1}^2", "weights": [1, 2, 3, 0], "outcome_sequences_per_start": 4}}));
     if ctx.outcome_count("kernels-invariant") < 20 {
         ctx.machinery_error("vacuity guard: fewer than 20 finite kernels were checked");
     }
